@@ -247,7 +247,14 @@ func (c *c16) DumpCase(seed uint64, idx int) []Case {
 	cp := loadCorpus()
 	pick := func() Project {
 		if r.chance(500) {
-			return *corpusProject(r.n(len(cp.roots)))
+			// fixtures that need more than 3M steps alone (one 16 KB document needs 62M) are left to the
+			// sequential checks: under the scheduler and the race detector they take minutes
+			for tries := 0; tries < 8; tries++ {
+				i := r.n(len(cp.roots))
+				if lightFixture(i) {
+					return *corpusProject(i)
+				}
+			}
 		}
 		cfg := randomCfg(r)
 		d := generateDoc(r, cfg)
@@ -1539,3 +1546,15 @@ func (a *interactionsAd) Map(fn func(k, v int) (int, error)) error {
 	})
 }
 func (a *interactionsAd) MarshalKeys() ([]int, error) { return jsonKeys(a.c.MarshalJSON()) }
+
+var fixtureTicks = map[int]uint64{}
+
+func lightFixture(i int) bool {
+	t, ok := fixtureTicks[i]
+	if !ok {
+		r, _, _ := execute(corpusProject(i), Opts{FixedSeed: true}, refEnv, nil, 1, nil)
+		t = r.Ticks
+		fixtureTicks[i] = t
+	}
+	return t < 3_000_000
+}
